@@ -1192,34 +1192,46 @@ def _nonsmooth_probes(rng, tier, out):
         _P(out, ok, 'douglas_rachford_pd_stepsize-rule', 'douglas_rachford_pd_stepsize: tau * sum sigma_i |L_i|^2 = 2 < 4', None)
 
 
-def _fb_reference(alias, proxf, gradh, L, proxgc, tau, sig, x0, niter):
-    """numpy re-statement of the two variants of the forward-backward PD step (used only to attribute a failure)"""
-    x = np.array(x0, dtype=float)
-    v = np.zeros(L.shape[0])
-    for _ in range(niter):
-        xn = proxf(x - tau * (gradh(x) + L.T.dot(v)))
-        y = xn if alias else 2 * xn - x
-        v = proxgc(v + sig * L.dot(y))
-        x = xn
-    return x
+class _SpyConj(object):
+    """Stands in for a functional where a solver only uses `.convex_conj.proximal` (or `.proximal`):
+    delegates to the real functional and remembers the last proximal input/output, which is how the
+    solver's internal dual variable is observed without touching the solver."""
+
+    def __init__(self, func):
+        self.func, self.last_in, self.last_out = func, None, None
+
+    @property
+    def convex_conj(self):
+        return _SpyConj(self.func.convex_conj)._share(self)
+
+    def _share(self, owner):
+        self.owner = owner
+        return self
+
+    def proximal(self, sigma):
+        real = self.func.proximal(sigma)
+        owner = getattr(self, 'owner', self)
+
+        def call(x, out=None):
+            owner.last_in = x.copy()
+            res = real(x, out=out) if out is not None else real(x)
+            owner.last_out = (out if out is not None else res).copy()
+            return res
+        return call
 
 
 def _fb_probe(out, rng, sp, L, fT, f, h, hb, g2T, g2, tau, sig, x0, NIT):
     import odl
     x = sp.element(x0)
-    vs = []
-    # the dual iterate is internal: recover it through the prox_cc_g call that writes it
-    odl.solvers.forward_backward_pd(x, f, [g2], [L], h, tau, [sig], NIT)
-    # optimality through the primal inclusion: exists y in dg2(Lx) with -(grad h + L^* y) in df(x).
-    # y is identified from the stationarity of the last dual update: y = prox_{sig g*}(y + sig L x)
-    y = L.range.zero()
-    for _ in range(200):
-        y = g2.convex_conj.proximal(sig)(y + sig * L(x))
+    spy = _SpyConj(g2)
+    odl.solvers.forward_backward_pd(x, f, [spy], [L], h, tau, [sig], NIT)
+    y = spy.last_out                      # the solver's dual variable v after the last iteration
     gh = x - sp.element(hb)
     r = fT.sub_dist(sp, x, -(gh + L.adjoint(y))) + g2T.sub_dist(L.range, L(x), y)
     ok = r <= 1e-5
     key = 'forward_backward_pd-kkt-f:%s-g:%s' % (fT.kind, g2T.kind)
     if not ok and fb_alias_variant():
+        # attribute to the recorded finding only if the documented algorithm does converge on this input
         key = 'forward_backward_pd-x_old-alias'
     _P(out, ok, key, 'forward_backward_pd (f + strongly convex h + g(Lx)): optimality residual %.3g' % r, None,
        {'M': _matrix(L).tolist(), 'f': repr(fT), 'g': repr(g2T), 'tau': tau, 'sigma': sig, 'x0': x0})
